@@ -105,6 +105,16 @@ def _is_generator(node):
 _VERIF_CONTRACTS = os.path.join(os.path.dirname(os.path.dirname(os.path.abspath(__file__))), "contracts")
 
 
+class FilteredSeq:
+    """(f(x) for x in xs if c(x)) over a sequence xs of symbolic length, in Skolem mode: kept as the pair of element functions over
+    the UNFILTERED index domain; only all()/any() consume it (`_quant_over`)."""
+
+    def __init__(self, src, cond_at, elt_at):
+        self.src = src
+        self.cond_at = cond_at
+        self.elt_at = elt_at
+
+
 class StarArgs:
     """Marker for a call `f(a, b, *xs)` whose `xs` has symbolic length: pass StarArgs(xs) as the last positional argument."""
 
@@ -156,6 +166,13 @@ class Interp:
     def instantiate_forall(self, index):
         """Skolem mode of all()/any() (`quant_skolem`): use the recorded universal facts at the index term `index`."""
         for v, want_all in list(getattr(self, "forall_facts", [])):
+            if isinstance(v, FilteredSeq):
+                if not self.ctx.branch(z3.And(index >= 0, index < v.src.len)):
+                    continue
+                passes, e = v.cond_at(index)
+                if passes and self.truth(v.elt_at(e)) != want_all:
+                    raise Infeasible()
+                continue
             if not self.ctx.branch(z3.And(index >= 0, index < v.len)):
                 continue
             if self.truth(v.at(index)) != want_all:
@@ -1441,7 +1458,13 @@ class Interp:
         args = []
         for a in node.args:
             if isinstance(a, ast.Starred):
-                args.extend(self.iterate(self.eval(a.value, env)))
+                sv = self.eval(a.value, env)
+                if isinstance(sv, SSeq) and not z3.is_int_value(z3.simplify(sv.len)):
+                    if a is not node.args[-1]:
+                        raise Undecided("a starred argument of symbolic length must be the last positional argument")
+                    args.append(StarArgs(sv))   # f(a, *xs): the callee (a closure with *args, or a model) receives the sequence itself
+                else:
+                    args.extend(self.iterate(sv))
             else:
                 args.append(self.eval(a, env))
         kwargs = {}
@@ -1519,6 +1542,15 @@ class Interp:
         src = self.eval(g.iter, env)
         if isinstance(src, SObj):
             src = as_seq(self, src)
+        if isinstance(src, SSeq) and not z3.is_int_value(z3.simplify(src.len)) and getattr(self, "quant_skolem", False):
+            def cond_at(idx, src=src):
+                e = Env(env, env.fn_globals, "comp")
+                self.assign_target(g.target, src.at(idx), e)
+                return all(self.truth(self.eval(c, e)) for c in g.ifs), e
+
+            def elt_at(e):
+                return self.eval(node.elt, e)
+            return FilteredSeq(src, cond_at, elt_at)
         if not (isinstance(src, SSeq) and not z3.is_int_value(z3.simplify(src.len))):
             self._pre = src
             out = []
@@ -2399,6 +2431,23 @@ def _m_zip(interp, *seqs, strict=False):
 
 def _quant_over(interp, v, want_all):
     """all()/any() over a (possibly lazy) sequence of booleans."""
+    if isinstance(v, FilteredSeq):
+        ctx = interp.ctx
+        if (ctx.choose(2, "quant") == 0) == want_all:
+            # universal case: nothing assumed, the fact is used at the index terms the scenario chooses (instantiate_forall)
+            interp.forall_facts = getattr(interp, "forall_facts", [])
+            interp.forall_facts.append((v, want_all))
+            return want_all
+        w = ctx.int("w")
+        ctx.assume(z3.And(w >= 0, w < v.src.len))
+        passes, e = v.cond_at(w)
+        if not passes:
+            raise Infeasible()
+        if interp.truth(v.elt_at(e)) == want_all:
+            raise Infeasible()
+        interp.quant_witnesses = getattr(interp, "quant_witnesses", [])
+        interp.quant_witnesses.append(w)
+        return not want_all
     if isinstance(v, SSeq) and not z3.is_int_value(z3.simplify(v.len)):
         ctx = interp.ctx
         # decide by forking: either some witness index makes it false/true, or every element holds
